@@ -41,9 +41,18 @@ BFrame(e) ==
           ELSE Report("border", [rows |-> badRows, writes |-> e.writes, start |-> s0, reported |-> e.reported, want |-> final,
                                  sample |-> IF badRows = {} THEN <<>> ELSE e.rows[(CHOOSE y \in badRows : TRUE) + 1]])
 
+\* a frame during which a snapshot was loaded (after the frame's writes): the picture of that frame is not judged
+\* (the statement gives the snapshot's border no beam position); the reported colour is the snapshot's, and the next
+\* frame starts from it
+MidLoad(e) ==
+    /\ start' = e.midload
+    /\ IF e.reported = e.midload THEN bad' = bad
+       ELSE Report("border", [rows |-> {}, writes |-> e.writes, start |-> start, reported |-> e.reported, want |-> e.midload, sample |-> <<>>])
+
 Step(e) ==
     CASE e.ev = "reset" -> m' = e.m /\ start' = -1 /\ lastOut' = -1 /\ bad' = bad
-      [] e.ev = "bframe" -> BFrame(e) /\ UNCHANGED <<m, lastOut>>
+      [] e.ev = "bframe" /\ e.midload >= 0 -> MidLoad(e) /\ UNCHANGED <<m, lastOut>>
+      [] e.ev = "bframe" /\ e.midload < 0 -> BFrame(e) /\ UNCHANGED <<m, lastOut>>
       \* a loaded snapshot sets the border: "or the border stored in the last loaded snapshot"
       [] e.ev = "snapshot" -> start' = e.border /\ UNCHANGED <<m, lastOut, bad>>
 
